@@ -11,7 +11,7 @@ use crate::Ctx;
 use mdv_core::mdparse::Dump;
 use mdv_core::{json, Report, Value};
 
-const NAMES: [&[u8]; 8] = [b"a", b"fifteen-bytes-xy", b"\xc3\xa9t\xc3\xa9", b"a b", b"tab\there", b"x", b"trail  ", b"\xe2\x82\xac1"];
+const NAMES: [&[u8]; 10] = [b"a", b"fifteen-bytes-xy", b"\xc3\xa9t\xc3\xa9", b"\xf0\x9f\xa6\x80-pool", b"a b", b"tab\there", b"x", b"trail  ", b"\xe2\x82\xac1", b"\xf0\x9f\xa6\x80\xf0\x9f\xa6\x80"];
 const BAD: [&[u8]; 3] = [b"\xff\xfe\xfd", b"a\xffb", b"\xc3"];
 
 pub struct CaseResult {
@@ -131,7 +131,7 @@ pub fn run(ctx: &Ctx, rep: &mut Report) {
     let max_full = if ctx.tier.is_thorough() { 8 } else { 6 };
     for n in 1..=max_full {
         for u in 0..(1u64 << n) {
-            for rot in 0..2 {
+            for rot in [0usize, 3] {
                 cases.push((n, u, rot, false));
             }
         }
